@@ -587,6 +587,10 @@ func (P *Program) classifyReturn(p *BTPath) BTReturn {
 	// a phi: pick the edge matching the path
 	if phi, ok := v.(*ssa.Phi); ok {
 		v = phiValueOnPath(phi, p.Blocks)
+		if isNilConst(v) {
+			// "return codec, err" with codec still nil on this path
+			return BTReturn{Reject: true}
+		}
 	}
 	if ex, ok := v.(*ssa.Extract); ok && ex.Index == 0 {
 		if call, ok := ex.Tuple.(*ssa.Call); ok {
